@@ -45,6 +45,7 @@ Definition row_shape (row : nat) : list atom :=
   | 16 => [Ck]                         (* await handle on a finished task *)
   | 17 => [Ck]                         (* Future.wait() on a finished future *)
   | 18 => [Ck]                         (* functools.reduce() with zero callback invocations *)
+  | 21 => [CkIf; Effect]               (* Condition.wait() in a cancelled scope while another task queues on the lock *)
   | 19 => [Ck]                         (* await Future on a finished future *)
   | 20 => [Ck]                         (* await Future on a failed / cancelled future: raises after the checkpoint *)
   (* documented exemptions *)
